@@ -103,6 +103,20 @@ Definition z2_eqb (a b : Z2) : bool := Z.eqb (fst a) (fst b) && Z.eqb (snd a) (s
 Definition mask_eqb : mask -> mask -> bool := list_eqb (list_eqb Bool.eqb).
 Definition isint (q : Q) : option Z := if Qeq_bool q (inject_Z (Qfloor q)) then Some (Qfloor q) else None.
 
+(* objects, as in the header of Gen_geometry.v: a Mask2D is (content, pixel_scales, origin), a Grid2D / Array2D is (slim values, its mask
+   object), a Geometry2D is (shape_native, pixel_scales, origin); 1-D likewise *)
+Definition mobj := (mask * Q2 * Q2)%type.
+Definition gobj := (list Q2 * mobj)%type.
+Definition aobj := (list Q * mobj)%type.
+Definition m1obj := (list bool * Q * Q)%type.
+Definition g1obj := (list Q * m1obj)%type.
+Definition q2eq (a b : Q2) : bool := Qeq_bool (fst a) (fst b) && Qeq_bool (snd a) (snd b).
+Definition mobj_eqb (a b : mobj) : bool := mask_eqb (fst (fst a)) (fst (fst b)) && q2eq (snd (fst a)) (snd (fst b)) && q2eq (snd a) (snd b).
+Definition m1obj_eqb (a b : m1obj) : bool :=
+  list_eqb Bool.eqb (fst (fst a)) (fst (fst b)) && Qeq_bool (snd (fst a)) (snd (fst b)) && Qeq_bool (snd a) (snd b).
+(* Mask2D(..., invert=b): the complement *)
+Definition mask_inv (inv : bool) (m : mask) : mask := if inv then map (map negb) m else m.
+
 (* Every constructor records the inputs AND what the implementation returned ([out]).  [tol] = 0 on the exact stream
    (dyadic inputs: every double operation is exact) and 1e-9 on the tolerance stream (arbitrary doubles, decisions
    kept at a margin >= 1e-6 by the generator). *)
@@ -116,6 +130,7 @@ Inductive case :=
 | KScaled2 (sh : Z2) (s o p : Q2) (tol : Q) (out : Q2)
 | KExtent1 (n : Z) (s o : Q) (tol : Q) (out : Q2)
 | KExtent2 (sh : Z2) (s o : Q2) (tol : Q) (out : Q * Q * Q * Q)
+| KExtentGrid (sh : Z2) (s o : Q2) (tol : Q) (ext : Q * Q * Q * Q) (g : list Q2)   (* the extent AND the all-false pixel-centre grid of one object *)
 | KGridPixels (sh : Z2) (s o : Q2) (g : list Q2) (tol : Q) (out : list Q2)
 | KGridCentres (sh : Z2) (s o : Q2) (g : list Q2) (out : list Q2)
 | KGridIndexes (sh : Z2) (s o : Q2) (g : list Q2) (out : list Q)
@@ -126,7 +141,28 @@ Inductive case :=
 | KAnn (sh : Z2) (s : Q2) (ri ro : Q) (c : Q2) (out : mask)
 | KAnti (sh : Z2) (s : Q2) (ri ro ro2 : Q) (c : Q2) (out : mask)
 | KEll (sh : Z2) (s : Q2) (R q : Q) (cs c : Q2) (out : mask)  (* cs = (cos, sin) of the angle *)
-| KEllAnn (sh : Z2) (s : Q2) (Ri qi : Q) (csi : Q2) (Ro qo : Q) (cso c : Q2) (out : mask).
+| KEllAnn (sh : Z2) (s : Q2) (Ri qi : Q) (csi : Q2) (Ro qo : Q) (cso c : Q2) (out : mask)
+(* ---- the CLASS layer: the object that the public entry point returned *)
+| KAllFalseC (sh : Z2) (s o : Q2) (inv : bool) (out : mobj)                               (* Mask2D.all_false *)
+| KCircC (sh : Z2) (r : Q) (s o c : Q2) (inv : bool) (out : mobj)                         (* Mask2D.circular(shape, radius, pixel_scales, origin, centre, invert) *)
+| KAnnC (sh : Z2) (ri ro : Q) (s o c : Q2) (inv : bool) (out : mobj)
+| KAntiC (sh : Z2) (ri ro ro2 : Q) (s o c : Q2) (inv : bool) (out : mobj)
+| KEllC (sh : Z2) (R q : Q) (cs : Q2) (s o c : Q2) (inv : bool) (out : mobj)
+| KEllAnnC (sh : Z2) (Ri qi : Q) (csi : Q2) (Ro qo : Q) (cso : Q2) (s o c : Q2) (inv : bool) (out : mobj)
+| KGeoOf (M : mobj) (out : Z2 * Q2 * Q2)                                                  (* Mask2D.geometry *)
+| KGeoGrid (which : Z) (sh : Z2) (s o : Q2) (G : gobj) (tol : Q) (out : gobj)             (* Geometry2D.grid_pixels (0) / grid_pixel_centres (1) / grid_scaled (2) _2d_from, G: a Grid2D with its OWN mask *)
+| KGeoIndexes (sh : Z2) (s o : Q2) (G : gobj) (out : aobj)                                (* Geometry2D.grid_pixel_indexes_2d_from *)
+| KSnap (sh : Z2) (s o c : Q2) (tol : Q) (out : Q2)                                       (* scaled_coordinate_2d_to_scaled_at_pixel_centre_from *)
+| KUniformC (sh : Z2) (s o : Q2) (tol : Q) (out : gobj)                                   (* Grid2D.uniform *)
+| KFromMaskC (M : mobj) (tol : Q) (out : gobj)                                            (* Grid2D.from_mask *)
+| KDeriveAllFalseC (M : mobj) (tol : Q) (out : gobj)                                      (* Mask2D.derive_grid.all_false *)
+| KDeriveUnmaskedC (M : mobj) (tol : Q) (out : gobj)                                      (* Mask2D.derive_grid.unmasked *)
+| KNative3 (sh : Z2) (s o : Q2) (g : list (list Q2)) (out : list (list Q2))               (* geometry_util.grid_pixel_centres_2d_from (native 3-D) *)
+| KAllFalse1C (n : Z) (s o : Q) (inv : bool) (out : m1obj)                                (* Mask1D.all_false *)
+| KGeoOf1 (M : m1obj) (out : Z * Q * Q)                                                   (* Mask1D.geometry *)
+| KUniform1C (n : Z) (s o : Q) (tol : Q) (out : g1obj)                                    (* Grid1D.uniform *)
+| KFromMask1C (M : m1obj) (tol : Q) (out : g1obj)                                         (* Grid1D.from_mask *)
+| KDeriveAllFalse1 (M : m1obj) (tol : Q) (out : g1obj).                                   (* Mask1D.derive_grid.all_false: specification only *)
 
 (* ------------------------------------------------------------------ the specification applied to the implementation's output *)
 Definition all2 {A B} (f : A -> B -> bool) (l1 : list A) (l2 : list B) : bool :=
@@ -140,17 +176,49 @@ Definition pix_ok (sh : Z2) (s o c : Q2) (p : Z2) : bool :=
 Definition pix1_ok (n : Z) (s o x : Q) (j : Z) : bool :=
   negb (@in_extent1 QOps n s o x) || @in_interval QOps (@centre1_spec QOps n s o j) s x.
 
+(* the implementation reports these positions in PIXEL units ([tol] is a pixel-unit tolerance); the specification evaluates
+   them in scaled units, where the tolerance is tol * pixel scale *)
+Definition q2tol_scaled (tol : Q) (s : Q2) (a b : Q2) : bool :=
+  qtol (tol * Qabs (fst s)) (fst a) (fst b) && qtol (tol * Qabs (snd s)) (snd a) (snd b).
+(* extent edges = outermost pixel centres -/+ half a pixel; g is the row-major all-false pixel-centre grid *)
+Definition extent_edges_ok (tol : Q) (s : Q2) (ext : Q * Q * Q * Q) (g : list Q2) : bool :=
+  let '(xmin, xmax, ymin, ymax) := ext in
+  match g with
+  | [] => false
+  | first :: _ =>
+      let lst := last g first in
+      qtol tol xmin (snd first - snd s / 2) && qtol tol xmax (snd lst + snd s / 2) &&
+      qtol tol ymax (fst first + fst s / 2) && qtol tol ymin (fst lst - fst s / 2)
+  end.
+
+Definition all_false_mask (sh : Z2) : mask := mask_of sh (fun _ => true).
+Definition centres_ok (sh : Z2) (s o : Q2) (g out : list Q2) : bool :=
+  all2 (fun c p => match isint (fst p), isint (snd p) with
+                   | Some i, Some j => pix_ok sh s o c (i, j)
+                   | _, _ => false end) g out.
+Definition indexes_ok (sh : Z2) (s o : Q2) (g : list Q2) (out : list Q) : bool :=
+  all2 (fun c q => match isint q with
+                   | Some t => negb (@in_extent QOps sh s o c) ||
+                               ((0 <? snd sh) && pix_ok sh s o c (t / snd sh, t mod snd sh))
+                   | None => false end) g out.
+(* snapping to the pixel centre: strictly inside the extent the result is the centre of a pixel of the array whose closed square
+   contains the point *)
+Definition snap_ok (sh : Z2) (s o c : Q2) (tol : Q) (out : Q2) : bool :=
+  negb (@in_extent QOps sh s o c) ||
+  existsb (fun p => @in_square QOps sh s o p c && q2tol tol out (@centre_spec QOps sh s o p)) (coords (fst sh) (snd sh)).
+Definition shape_of (m : mask) : Z2 := (rows m, cols m).
+
 Definition spec_ok (k : case) : bool :=
   match k with
   | KCentral1 n s o tol outp outs =>
       (* the (real-valued) pixel position whose scaled coordinate is 0, for origin 0 resp. o *)
-      qtol tol (@cx_spec QOps n s 0%Q outp) 0%Q && qtol tol (@cx_spec QOps n s o outs) 0%Q
+      qtol (tol * Qabs s) (@cx_spec QOps n s 0%Q outp) 0%Q && qtol (tol * Qabs s) (@cx_spec QOps n s o outs) 0%Q
   | KCentral2 sh s o tol outp outs =>
-      q2tol tol (@cy_spec QOps (fst sh) (fst s) 0%Q (fst outp), @cx_spec QOps (snd sh) (snd s) 0%Q (snd outp)) (0%Q, 0%Q) &&
-      q2tol tol (@cy_spec QOps (fst sh) (fst s) (fst o) (fst outs), @cx_spec QOps (snd sh) (snd s) (snd o) (snd outs)) (0%Q, 0%Q)
+      q2tol_scaled tol s (@cy_spec QOps (fst sh) (fst s) 0%Q (fst outp), @cx_spec QOps (snd sh) (snd s) 0%Q (snd outp)) (0%Q, 0%Q) &&
+      q2tol_scaled tol s (@cy_spec QOps (fst sh) (fst s) (fst o) (fst outs), @cx_spec QOps (snd sh) (snd s) (snd o) (snd outs)) (0%Q, 0%Q)
   | KMaskCentres sh s c tol out =>
       (* the (real-valued) pixel position of the requested centre, mask origin (0,0) *)
-      q2tol tol (@cy_spec QOps (fst sh) (fst s) 0%Q (fst out), @cx_spec QOps (snd sh) (snd s) 0%Q (snd out)) c
+      q2tol_scaled tol s (@cy_spec QOps (fst sh) (fst s) 0%Q (fst out), @cx_spec QOps (snd sh) (snd s) 0%Q (snd out)) c
   | KPix1 n s o x out => pix1_ok n s o x out
   | KPix2 sh s o c out => pix_ok sh s o c out
   | KScaled1 n s o p tol out => qtol tol out (@cx_spec QOps n s o p)
@@ -158,16 +226,10 @@ Definition spec_ok (k : case) : bool :=
       q2tol tol out (@cy_spec QOps (fst sh) (fst s) (fst o) (fst p), @cx_spec QOps (snd sh) (snd s) (snd o) (snd p))
   | KExtent1 n s o tol out => q2tol tol out (@extent1_spec QOps n s o)
   | KExtent2 sh s o tol out => q4tol tol out (@extent_spec QOps sh s o)
+  | KExtentGrid sh s o tol ext g => extent_edges_ok tol s ext g
   | KGridPixels sh s o g tol out => all2 (q2tol tol) out (map (@pixels_spec QOps sh s o) g)
-  | KGridCentres sh s o g out =>
-      all2 (fun c p => match isint (fst p), isint (snd p) with
-                       | Some i, Some j => pix_ok sh s o c (i, j)
-                       | _, _ => false end) g out
-  | KGridIndexes sh s o g out =>
-      all2 (fun c q => match isint q with
-                       | Some t => negb (@in_extent QOps sh s o c) ||
-                                   ((0 <? snd sh) && pix_ok sh s o c (t / snd sh, t mod snd sh))
-                       | None => false end) g out
+  | KGridCentres sh s o g out => centres_ok sh s o g out
+  | KGridIndexes sh s o g out => indexes_ok sh s o g out
   | KGridScaled sh s o g tol out => all2 (q2tol tol) out (map (@scaled_spec QOps sh s o) g)
   | KGridMask m s o tol out => all2 (q2tol tol) out (map (@centre_spec QOps (rows m, cols m) s o) (unmasked m))
   | KGrid1Mask m s o tol out => all2 (qtol tol) out (map (@centre1_spec QOps (Z.of_nat (length m)) s o) (unmasked1 m))
@@ -176,4 +238,46 @@ Definition spec_ok (k : case) : bool :=
   | KAnti sh s ri ro ro2 c out => mask_eqb out (mask_of sh (@anti_inside QOps sh s ri ro ro2 c))
   | KEll sh s R q cs c out => mask_eqb out (mask_of sh (@ell_inside QOps sh s R q cs c))
   | KEllAnn sh s Ri qi csi Ro qo cso c out => mask_eqb out (mask_of sh (@ellann_inside QOps sh s Ri qi csi Ro qo cso c))
+  (* class layer.  The constructors: the documented shape, evaluated at pixel centres measured with origin (0,0) -- the `origin`
+     argument is stored in the object and does not move the shape --, complemented by `invert`; pixel scales and origin are stored *)
+  | KAllFalseC sh s o inv out => mobj_eqb out (mask_inv inv (all_false_mask sh), s, o)
+  | KCircC sh r s o c inv out => mobj_eqb out (mask_inv inv (mask_of sh (@circ_inside QOps sh s r c)), s, o)
+  | KAnnC sh ri ro s o c inv out => mobj_eqb out (mask_inv inv (mask_of sh (@ann_inside QOps sh s ri ro c)), s, o)
+  | KAntiC sh ri ro ro2 s o c inv out => mobj_eqb out (mask_inv inv (mask_of sh (@anti_inside QOps sh s ri ro ro2 c)), s, o)
+  | KEllC sh R q cs s o c inv out => mobj_eqb out (mask_inv inv (mask_of sh (@ell_inside QOps sh s R q cs c)), s, o)
+  | KEllAnnC sh Ri qi csi Ro qo cso s o c inv out =>
+      mobj_eqb out (mask_inv inv (mask_of sh (@ellann_inside QOps sh s Ri qi csi Ro qo cso c)), s, o)
+  | KGeoOf M out => z2_eqb (fst (fst out)) (shape_of (fst (fst M))) && q2eq (snd (fst out)) (snd (fst M)) && q2eq (snd out) (snd M)
+  (* the conversions use the GEOMETRY's shape sh, whatever the shape of the mask of the Grid2D G that carries the points; the result
+     carries G's mask *)
+  | KGeoGrid which sh s o G tol out =>
+      mobj_eqb (snd out) (snd G) &&
+      (if which =? 0 then all2 (q2tol tol) (fst out) (map (@pixels_spec QOps sh s o) (fst G))
+       else if which =? 1 then centres_ok sh s o (fst G) (fst out)
+       else all2 (q2tol tol) (fst out) (map (@scaled_spec QOps sh s o) (fst G)))
+  | KGeoIndexes sh s o G out => mobj_eqb (snd out) (snd G) && indexes_ok sh s o (fst G) (fst out)
+  | KSnap sh s o c tol out => snap_ok sh s o c tol out
+  | KUniformC sh s o tol out =>
+      mobj_eqb (snd out) (all_false_mask sh, s, o) && all2 (q2tol tol) (fst out) (map (@centre_spec QOps sh s o) (coords (fst sh) (snd sh)))
+  | KFromMaskC M tol out | KDeriveUnmaskedC M tol out =>
+      let m := fst (fst M) in
+      mobj_eqb (snd out) M && all2 (q2tol tol) (fst out) (map (@centre_spec QOps (shape_of m) (snd (fst M)) (snd M)) (unmasked m))
+  | KDeriveAllFalseC M tol out =>
+      let sh := shape_of (fst (fst M)) in
+      mobj_eqb (snd out) (all_false_mask sh, snd (fst M), snd M) &&
+      all2 (q2tol tol) (fst out) (map (@centre_spec QOps sh (snd (fst M)) (snd M)) (coords (fst sh) (snd sh)))
+  | KNative3 sh s o g out => all2 (centres_ok sh s o) g out
+  | KAllFalse1C n s o inv out => m1obj_eqb out (map (fun _ => inv) (seqZ n), s, o)
+  | KGeoOf1 M out =>
+      Z.eqb (fst (fst out)) (Z.of_nat (length (fst (fst M)))) && Qeq_bool (snd (fst out)) (snd (fst M)) && Qeq_bool (snd out) (snd M)
+  | KUniform1C n s o tol out =>
+      m1obj_eqb (snd out) (map (fun _ => false) (seqZ n), s, o) && all2 (qtol tol) (fst out) (map (@centre1_spec QOps n s o) (seqZ n))
+  | KFromMask1C M tol out =>
+      let m := fst (fst M) in
+      m1obj_eqb (snd out) M && all2 (qtol tol) (fst out) (map (@centre1_spec QOps (Z.of_nat (length m)) (snd (fst M)) (snd M)) (unmasked1 m))
+  | KDeriveAllFalse1 M tol out =>
+      (* every pixel of the mask, masked or not, paired with the all-false mask of the same geometry *)
+      let n := Z.of_nat (length (fst (fst M))) in
+      m1obj_eqb (snd out) (map (fun _ => false) (seqZ n), snd (fst M), snd M) &&
+      all2 (qtol tol) (fst out) (map (@centre1_spec QOps n (snd (fst M)) (snd M)) (seqZ n))
   end.
